@@ -160,6 +160,14 @@ theorem rebound_stays_visible (g : Graph) (b : BId) (n k : NodeId) (ob : Origin)
   ⟨rebound_visible_here g b k ob hregk hb hbs,
    fun hreg hk hp => rebound_visible_later g b n k hreg hk hp (rebound_visible_here g b k ob hregk hb hbs)⟩
 
+/-- The operation itself, for every program state with a well-formed graph (every graph built by a history is:
+`Props.C07.built_graph_wf`): `Binding::AddOrigin(k, {b})` applied to `b` — which is what pasting the copy back amounts
+to — makes `b` visible at `k`. -/
+theorem rebind_op_makes_visible (s : PState) (hwf : s.g.WF) (b : BId) (k : NodeId) (hb : s.okB b = true)
+    (hk : s.okNode k = true) : Expl (s.addOrigin b k [b]).g k [b] := by
+  simp only [PState.okB, PState.okNode, decide_eq_true_eq] at hb hk
+  exact addOrigin_self_visible s.g hwf b k hb hk
+
 /-- non-vacuity: the graph of `accRebindThenMerge` meets the hypotheses (b = 0, k = 1, n = 2) … -/
 example : let g := ((PState.init []).run accRebindThenMerge).g
     (g.node 1).bindings.contains 0 = true ∧ g.findOrigin 0 1 = some ⟨1, [[0]]⟩ ∧
